@@ -1,5 +1,6 @@
 import Tmv.Drv.Core
 import Tmv.Model.Syncer
+import Tmv.Model.StateProvider
 import Tmv.Gen.Facts
 /-! Line-protocol driver for C14: chunk queue (`q.*`), snapshot pool (`p.*`), syncer (`s.*`). -/
 namespace Tmv.Drv.C14
@@ -14,6 +15,13 @@ structure EnvRow where
   state : ProvRes PState
   commit : ProvRes PCommit
 
+/-- the generated chain of the `l.*` ops: per height the light block and the consensus parameters
+in effect (what an honest `/consensus_params` answers) -/
+structure LChain where
+  seed : Nat
+  ih : Nat
+  blocks : List (LightBlock × Params)
+
 structure St where
   q : Option Queue := none
   p : Pool := Pool.empty
@@ -25,6 +33,7 @@ structure St where
   late : List Msg := []
   fallback : Option String := some "pf"
   live : Bool := false
+  lch : Option LChain := none
 
 def nat? (toks : List String) (k : String) : Option Nat := (kv toks k).bind String.toNat?
 
@@ -181,6 +190,145 @@ def topGroup (p : Pool) : List Snapshot :=
   | [] => []
   | a :: rest => a :: rest.takeWhile (fun b => p.tied a b)
 
+def maxBlock : Int := Facts.c14_MaxBlockSizeBytes
+
+def parseBlock (t : String) : Option (LightBlock × Params) :=
+  match t.splitOn "/" with
+  | [h, bh, ah, vh, av, lrh, mb, mg, iota, eab, ead, emb, pk, cav] => do
+    let p : Params := { maxBytes := ← mb.toInt?, maxGas := ← mg.toInt?, timeIota := ← iota.toInt?
+                        evAgeBlocks := ← eab.toInt?, evAgeDur := ← ead.toInt?, evMaxBytes := ← emb.toInt?
+                        pubKeyTypes := if pk = "" then [] else pk.splitOn "+", appVersion := ← cav.toNat? }
+    let b : LightBlock := { height := ← h.toNat?, hash := ← ofHex bh, appHash := ← ofHex ah
+                            appVersion := ← av.toNat?, vals := ← ofHex vh, lastResults := ← ofHex lrh
+                            consHashed := p.hashed }
+    pure (b, p)
+  | _ => none
+
+def showParams (p : Params) : String :=
+  s!"{p.maxBytes}/{p.maxGas}/{p.timeIota}/{p.evAgeBlocks}/{p.evAgeDur}/{p.evMaxBytes}/" ++
+    "+".intercalate p.pubKeyTypes ++ s!"/{p.appVersion}"
+
+def parseLie (s : String) : Option (Option (String × Nat)) :=
+  if s = "-" then some none else
+  match s.splitOn "@" with
+  | [k, h] => h.toNat?.map fun n => some (k, n)
+  | _ => none
+
+/-- the lying server's change of a `/consensus_params` answer (harness: `mutateParams`) -/
+def mutateParams (kind : String) (r : ParamsResp) : ParamsResp :=
+  let p := r.params
+  match kind with
+  | "pmb" => { r with params := { p with maxBytes := p.maxBytes + 1 } }
+  | "pmg" => { r with params := { p with maxGas := p.maxGas + 3 } }
+  | "piota" => { r with params := { p with timeIota := p.timeIota + 9 } }
+  | "peab" => { r with params := { p with evAgeBlocks := p.evAgeBlocks + 7 } }
+  | "pead" => { r with params := { p with evAgeDur := p.evAgeDur + 3600000000000 } }
+  | "pemb" => { r with params := { p with evMaxBytes := p.evMaxBytes + 11 } }
+  | "ppk" => { r with params := { p with pubKeyTypes := ["secp256k1"] } }
+  | "pav" => { r with params := { p with appVersion := p.appVersion + 5 } }
+  | "pinv" => { r with params := { p with evAgeBlocks := 0 } }
+  | "pht" => { r with height := r.height + 1 }
+  | _ => r
+
+def LChain.lc (c : LChain) (k : Nat) : ProvRes LightBlock :=
+  match c.blocks.find? (fun bp => bp.1.height = k) with
+  | some bp => .ok bp.1
+  | none => .err
+
+def LChain.rpc (c : LChain) (lie : Option (String × Nat)) (k : Nat) : ProvRes ParamsResp :=
+  match c.blocks.find? (fun bp => bp.1.height = k) with
+  | some bp =>
+    let r : ParamsResp := { height := k, params := bp.2 }
+    match lie with
+    | some (kind, atH) => .ok (if atH = k then mutateParams kind r else r)
+    | none => .ok r
+  | none => .err
+
+/-- what `Sync` asks of the provider, in its order -/
+def lcSync (c : LChain) (lie : Option (String × Nat)) (h : Nat) :
+    Except String (Bytes × LcState × LcCommit) :=
+  match lcAppHash c.lc h with
+  | .ok ah =>
+    match lcState c.lc maxBlock (c.rpc lie) c.ih h with
+    | .ok st =>
+      match lcCommit c.lc h with
+      | .ok cm => .ok (ah, st, cm)
+      | _ => .error "err@commit"
+    | _ => .error "err@state"
+  | _ => .error "err@apphash"
+
+def showLcSync (c : LChain) (ah : Bytes) (s : LcState) (cm : LcCommit) : String :=
+  s!"apphash={hexOrDash ah} state=lbh:{s.lastBlockHeight},app:{hexOrDash s.appHash},ver:{s.appVersion}," ++
+  s!"lv:{hexOrDash s.lastValidators},v:{hexOrDash s.validators},nv:{hexOrDash s.nextValidators}," ++
+  s!"lhvc:{s.lastHeightValidatorsChanged},lhcpc:{s.lastHeightParamsChanged},lbid:{hexOrDash s.lastBlockID}," ++
+  s!"lrh:{hexOrDash s.lastResults},cp:{showParams s.params},ih:{s.initialHeight},chain:c14-{c.seed % 5} " ++
+  s!"commit={cm.height}:{hexOrDash cm.blockHash}"
+
+def showBoot (h : Nat) (s : Stores) : String :=
+  match s.state with
+  | none => "state=empty start=statesync-again"
+  | some st =>
+    let v := fun (k : Nat) => match s.vals (h + k) with
+      | some x => s!"vals{k}={hexOrDash x}"
+      | none => s!"vals{k}=none"
+    let p := fun (k : Nat) => match loadParams s (h + k) with
+      | some x => s!"params{k}={showParams x}"
+      | none => s!"params{k}=none"
+    let seen := match s.seen h with
+      | some c => s!"seen={c.height}:{hexOrDash c.blockHash}"
+      | none => "seen=none"
+    let start := match startNode s with
+      | .ok => "ok" | .stateSyncAgain => "statesync-again"
+      | .panicNoSeenCommit => "panic:seen-commit-not-found" | .panicWrongCommit => "panic:wrong-commit"
+    s!"state=lbh:{st.lastBlockHeight},app:{hexOrDash st.appHash},v:{hexOrDash st.validators}," ++
+    s!"nv:{hexOrDash st.nextValidators},lv:{hexOrDash st.lastValidators} {v 0} {v 1} {v 2} {v 3} {p 0} {p 1} " ++
+    s!"{seen} start={start}"
+
+/-- the order of the two writes in node/node.go `startStateSync`, from the regenerated fact -/
+def nodeCommitFirst : Bool :=
+  let l := Facts.c14_startStateSync_order
+  match l.idxOf? "SaveSeenCommit", l.idxOf? "Bootstrap" with
+  | some a, some b => a < b
+  | _, _ => true
+
+def lop (st : St) (toks : List String) : St × String :=
+  match toks with
+  | "l.chain" :: rest =>
+    match nat? rest "seed", nat? rest "n", nat? rest "nv", nat? rest "ih", nat? rest "pchg", nat? rest "uchg",
+          nat? rest "vver", (kv rest "vchg").bind (fun s => (splitComma s).mapM String.toNat?),
+          (kv rest "blocks").bind (fun s => (s.splitOn ";").mapM parseBlock) with
+    | some seed, some n, some nv, some ih, some _, some _, some _, some _, some blocks =>
+      if n < 1 ∨ n > 40 ∨ nv < 1 ∨ nv > 8 ∨ ih < 1 then (st, "bad-op")
+      else ({ st with lch := some { seed := seed, ih := ih, blocks := blocks } }, "ok")
+    | _, _, _, _, _, _, _, _, _ => (st, "bad-op")
+  | op :: rest =>
+    match st.lch, nat? rest "h", nat? rest "trust", (kv rest "lieP").bind parseLie, (kv rest "lieW").bind parseLie,
+          kv rest "expect", kv rest "all" with
+    | some c, some h, some trust, some lp, some _, some exp, some all =>
+      if (exp ≠ "exact" ∧ exp ≠ "any") ∨ (all ≠ "0" ∧ all ≠ "1") then (st, "bad-op")
+      else
+        let inRange := (c.blocks.any fun bp => bp.1.height = trust)
+        let res := if inRange then lcSync c lp h else .error "err@init"
+        if op = "l.sync" then
+          if exp = "any" then (st, "ok-or-err")
+          else (st, match res with
+            | .ok (ah, s, cm) => showLcSync c ah s cm
+            | .error e => e)
+        else
+          match kv rest "crash", kv rest "order" with
+          | some cr, some ord =>
+            let crash? : Option Crash := match cr with
+              | "-" => some .none | "between" => some .between | "before" => some .before | _ => none
+            match crash?, decide (ord = "commit-first" ∨ ord = "state-first" ∨ ord = "node") with
+            | some crash, true =>
+              (st, match res with
+                | .ok (_, s, cm) => showBoot h (startWrites (ord = "commit-first" ∨ (ord = "node" ∧ nodeCommitFirst)) crash s cm)
+                | .error e => e)
+            | _, _ => (st, "bad-op")
+          | _, _ => (st, "bad-op")
+    | _, _, _, _, _, _, _ => (st, "bad-op")
+  | _ => (st, "bad-op")
+
 def qop (st : St) (f : Queue → Queue × String) : St × String :=
   match st.q with
   | some q => let (q', o) := f q; ({ st with q := some q' }, o)
@@ -188,6 +336,9 @@ def qop (st : St) (f : Queue → Queue × String) : St × String :=
 
 def step (st : St) (toks : List String) : St × String :=
   match toks with
+  | "l.chain" :: _ => lop st toks
+  | "l.sync" :: _ => lop st toks
+  | "l.boot" :: _ => lop st toks
   | "q.new" :: rest =>
     match nat? rest "h", nat? rest "f", nat? rest "c" with
     | some h, some f, some c =>
